@@ -7,6 +7,7 @@
    harness's auditing lock; parking_lot / spin are not verified).  What is proved is that happylock hands
    out data access only to the holder and routes position i of every guard / closure argument to member i. *)
 From HL Require Import Base Model Shape Algo Api Conc OpsLemmas Lemmas ShapeLemmas ApiLemmas QuietLemmas Pf_Calls Pf_Hist Pf_Hist2.
+From HL Require WpData.
 From HL Require Wp WpMain.
 
 (* the guard structure covers exactly the declared leaves, in declared order ... *)
@@ -97,6 +98,27 @@ Theorem C02_every_schedule_exclusive :
   parked (get_thr (b_thr s) u) <> Some (OWrite pos' l) /\ parked (get_thr (b_thr s) u) <> Some (ORead pos' l).
 Proof. exact WpMain.every_schedule_exclusive. Qed.
 
+(* continuity of the data: while a thread holds a lock — shared or exclusive — no turn of any other thread changes that
+   lock's data, in every state of every schedule; and whenever a lock's data changes, the thread whose turn it was holds
+   the lock exclusively.  A section therefore observes exactly the value the most recent exclusive section of that lock
+   left: nothing is lost, torn or written by a bystander in between. *)
+Theorem C02_every_schedule_data_stable :
+  forall b sched t u l, WpMain.wfB b = true ->
+  let sc := bs_sc b in
+  let s := fst (run_sched (bs_wp b) (sc_env sc) (sc_nlocks sc) (binit b) sched) in
+  t <> u -> enabled (bs_wp b) s u = true -> holds_b (b_w s) t l = true ->
+  w_data (b_w (turn (bs_wp b) (sc_env sc) (sc_nlocks sc) s u)) l = w_data (b_w s) l.
+Proof. exact WpData.every_schedule_data_stable. Qed.
+
+Theorem C02_every_schedule_data_changes_only_under_exclusive_hold :
+  forall b sched u l, WpMain.wfB b = true ->
+  let sc := bs_sc b in
+  let s := fst (run_sched (bs_wp b) (sc_env sc) (sc_nlocks sc) (binit b) sched) in
+  enabled (bs_wp b) s u = true ->
+  w_data (b_w (turn (bs_wp b) (sc_env sc) (sc_nlocks sc) s u)) l <> w_data (b_w s) l ->
+  writer_is (w_raw (b_w s) l) u = true.
+Proof. exact WpData.every_schedule_data_changes_only_under_exclusive_hold. Qed.
+
 (* non-vacuity: a schedule that parks thread 0 at a write inside its exclusive closure while thread 1 waits *)
 Definition ex02 : bscen :=
   mkbs (mks 2 0 [0; 1] [] [SBoxed (SSeq [SLeaf KRw 0; SLeaf KMutex 1]); SRetry (SSeq [SLeaf KMutex 1; SLeaf KRw 0])] [] [] [] 20 [])
@@ -116,3 +138,5 @@ Print Assumptions C02_closure_under_hold.
 Print Assumptions C02_guards_exclusive.
 Print Assumptions C02_every_schedule_data_under_hold.
 Print Assumptions C02_every_schedule_exclusive.
+Print Assumptions C02_every_schedule_data_stable.
+Print Assumptions C02_every_schedule_data_changes_only_under_exclusive_hold.
